@@ -208,7 +208,8 @@ CHECKS["C16"] = dict(
          "evaluations = injected runs, distinct = distinct (abstract pre-state, operation, k)",
     assumptions=["GSL's malloc failures are outside the statement (bad_alloc only)", "allocation points that do not occur on a run because library-internal thread-local scratch is already warm are skipped",
                  "2 slots + 1 buffer to closure (quick), 3 slots + 2 buffers (thorough)"],
-    runs=[run("hist_c16_a1", "hist.cpp", "asan", args=["--mode", "c16", "--slots", "2", "--bufs", "1", "--dims", "2.3", "--align", "1"], tiers=("quick", "thorough")),
+    runs=[run("c16_callable", "c16f.cpp", "asan"),   # element-wise operations with a callable whose copies allocate: every allocation point refused once
+          run("hist_c16_a1", "hist.cpp", "asan", args=["--mode", "c16", "--slots", "2", "--bufs", "1", "--dims", "2.3", "--align", "1"], tiers=("quick", "thorough")),
           run("hist_c16_a0_d3", "hist.cpp", "asan", args=["--mode", "c16", "--slots", "2", "--bufs", "1", "--dims", "2.3", "--align", "0", "--depth", "3"], tiers=("quick",)),
           run("hist_c16_a0", "hist.cpp", "asan", args=["--mode", "c16", "--slots", "2", "--bufs", "1", "--dims", "2.3", "--align", "0", "--deadline", "3000"], tiers=("thorough",), timeout={"thorough": 5000}),
           run("hist_c16_3slots", "hist.cpp", "asan", args=["--mode", "c16", "--slots", "3", "--bufs", "2", "--dims", "2.3", "--align", "1", "--deadline", "3000"], tiers=("thorough",), timeout={"thorough": 5000})],
